@@ -601,6 +601,8 @@ type Property struct {
 	Exhaustive func(tier string) (bool, string)
 	// StallSeconds is the no-progress deadline of stage 1 of the hang rule.
 	StallSeconds int
+	// Shards caps the number of shard processes (0 = one per core, at most 16).
+	Shards int
 	// Post runs in the driver after all shards finished (race-log parsing etc.).
 	Post func(pi *PostInfo) (vios []*Violation, inconclusive []string)
 }
